@@ -74,30 +74,40 @@ impl Publish {
         })
     }
 
+    /// Size of the variable header (topic, packet id, properties).
+    ///
+    /// The header must fit into the frame, `remaining_length` is the size
+    /// of the frame as declared by the fixed header.
     pub(crate) fn packet_header_size(
         src: &BytesMut,
         packet_flags: u8,
+        remaining_length: u32,
     ) -> Result<Option<u32>, DecodeError> {
+        let qos = QoS::try_from((packet_flags & 0b0110) >> 1)?;
+        // packet-id len
+        let id_len = if qos == QoS::AtMostOnce { 0 } else { 2 };
+
+        // topic len + packet-id + at least one byte of properties length
+        ensure!(remaining_length >= 2 + id_len + 1, DecodeError::InvalidLength);
         if src.remaining() < 2 {
             return Ok(None);
         }
 
         // topic len
-        let mut len = u32::from(u16::from_be_bytes([src[0], src[1]])) + 2;
-
-        // packet-id len
-        let qos = QoS::try_from((packet_flags & 0b0110) >> 1)?;
-        if qos != QoS::AtMostOnce {
-            len += 2; // len of u16
-        }
+        let len = u32::from(u16::from_be_bytes([src[0], src[1]])) + 2 + id_len;
+        ensure!(len < remaining_length, DecodeError::InvalidLength);
         if src.remaining() < len as usize {
             return Ok(None);
         }
 
-        // properties len
-        if let Some((prop_len, pos)) = utils::decode_variable_length(&src[len as usize..])? {
-            Ok(Some(len + prop_len + pos as u32))
+        // properties len, it can not be read beyond the end of the frame
+        let end = std::cmp::min(src.len(), remaining_length as usize);
+        if let Some((prop_len, pos)) = utils::decode_variable_length(&src[len as usize..end])? {
+            let size = len + prop_len + pos as u32;
+            ensure!(size <= remaining_length, DecodeError::InvalidLength);
+            Ok(Some(size))
         } else {
+            ensure!(end < remaining_length as usize, DecodeError::InvalidLength);
             Ok(None)
         }
     }
